@@ -205,6 +205,53 @@ func runC09(c *Ctx) {
 			"Close reports an error to the client when bytes of an envelope/message are still missing", "Close no longer reports an unfinished envelope/message: a backend that stops mid-message yields a silently short body")
 	}
 
+	// the only excuse for missing bytes at Close: waiting for the NEXT envelope with none of it written
+	{
+		ewT := types.NewPointer(p.MustNamed("envelopingWriter"))
+		cl := p.MethodOf(ewT, "Close")
+		remF := p.MustField("envelopingWriter", "remainingBytes")
+		weF := p.MustField("envelopingWriter", "writingEnvelope")
+		ebT, _ := envTypes(p)
+		envLen := ebT.Underlying().(*types.Array).Len()
+		paths, ok := EnumPaths(cl.Blocks[0], nil, IsReturn, 0)
+		bad := 0
+		for _, cp := range paths {
+			missing, reported, excuseW, excuseL := false, false, false, false
+			for cond, truth := range cp.Truth {
+				if b, isB := cond.(*ssa.BinOp); isB && LoadedField(b.X) == remF {
+					if k, isK := ConstInt(b.Y); isK {
+						if b.Op == token.GTR && k == 0 && truth {
+							missing = true
+						}
+						if b.Op == token.EQL && k == envLen && truth {
+							excuseL = true
+						}
+					}
+				}
+				if truth && LoadedField(cond) == weF {
+					excuseW = true
+				}
+			}
+			for _, b := range cp.Blocks {
+				for _, in := range b.Instrs {
+					if ci, isC := in.(ssa.CallInstruction); isC {
+						for _, cal := range p.CalleesAt(ci) {
+							if cal == rwReport {
+								reported = true
+							}
+						}
+					}
+				}
+			}
+			if missing && !reported && !(excuseW && excuseL) {
+				bad++
+			}
+		}
+		c.Check(ok && bad == 0, "C09.2", FuncName(cl), "only-excuse-is-next-envelope", cl.Pos(),
+			"a Close with bytes still missing skips the error report only when it was waiting for the next envelope and none of it was written (writingEnvelope && remainingBytes == envelopeLen)",
+			itoa(bad)+" path(s) through Close have bytes missing, report nothing, and are not the 'waiting for the next envelope' state: a response cut inside a message is taken for a clean end")
+	}
+
 	// ---------------------------------------------------------------- C09.3
 	c.Rule("C09.3", "flag tables accept exactly the protocol's values; trailer frames are rejected in request streams", 20)
 	checkFlagTables(c, "C09.3")
